@@ -416,9 +416,92 @@ def lifecycle_shard(kinds, ntrainers, with_extra, depth, max_states):
     return tally
 
 
+def two_layer_shard(kind, depth):
+    """one trainer, cells from TWO different layers that use the same internal names (two Serial layers): a cell's monitors
+    record exactly one observation per step of ITS layer and none for steps of the other layer"""
+    from inferno.neural import Serial
+    tally = Tally()
+    ops = [("reg", 0), ("reg", 1), ("step", 0), ("step", 1), ("del", 0), ("del", 1), ("eval",), ("train",)]
+
+    def world():
+        def layer():
+            c = LinearDense((2,), (2,), DT, synapse=DeltaCurrent.partialconstructor(DT), batch_size=1, weight_init=lambda w: torch.full_like(w, 0.5))
+            c.updater = c.defaultupdater()
+            return Serial(c, ExactNeuron((2,), DT, rest_v=-60.0, thresh_v=-45.0, batch_size=1))
+        return [layer(), layer()], make_trainer(kind, 0)
+
+    for d in range(1, depth + 1):
+        for seq in itertools.product(ops, repeat=d):
+            # only sequences that end in a layer step decide something; prune immediate repeats of non-step events
+            if seq[-1][0] != "step":
+                continue
+            layers, tr = world()
+            reg = [False, False]
+            training = True
+            counts = {}
+            hooked = {}
+            legal = True
+            tally.add("transitions")
+            for k, op in enumerate(seq):
+                last = k == len(seq) - 1
+                try:
+                    if op[0] == "reg":
+                        if reg[op[1]]:
+                            legal = False
+                            break
+                        tr.register_cell(f"c{op[1]}", layers[op[1]].cell)
+                        reg[op[1]] = True
+                    elif op[0] == "del":
+                        if not reg[op[1]]:
+                            legal = False
+                            break
+                        tr.del_cell(f"c{op[1]}")
+                        reg[op[1]] = False
+                    elif op[0] == "eval":
+                        tr.eval()
+                        training = False
+                    elif op[0] == "train":
+                        tr.train()
+                        training = True
+                    elif op[0] == "step":
+                        for i in (0, 1):
+                            if reg[i]:
+                                for n, mon in tr.named_monitors_of(f"c{i}"):
+                                    if id(mon.reducer) not in hooked:
+                                        counts[id(mon.reducer)] = 0
+                                        mon.reducer.register_forward_hook(lambda m_, a_, o_, key=id(mon.reducer): counts.__setitem__(key, counts[key] + 1))
+                                        hooked[id(mon.reducer)] = mon.reducer
+                        before = dict(counts)
+                        x = torch.tensor([[1, k % 2]], dtype=torch.bool)
+                        layers[op[1]](x, neuron_kwargs={"override": torch.tensor([[1, 1]], dtype=torch.bool)})
+                        if last:
+                            case = {"config": {"trainers": [kind], "two_layers": True}, "history": [list(o) for o in seq]}
+                            for i in (0, 1):
+                                if not reg[i]:
+                                    continue
+                                for n, mon in tr.named_monitors_of(f"c{i}"):
+                                    delta = counts[id(mon.reducer)] - before.get(id(mon.reducer), 0)
+                                    exp = 1 if (i == op[1] and training) else 0
+                                    if delta != exp:
+                                        what = "missed-observation" if delta < exp else "foreign-observation"
+                                        tally.violation(f"two-layers:{what}:{kind}:{n}", case, f"step of layer {op[1]}: monitor '{n}' of cell c{i} (layer {i}) recorded "
+                                                        f"{delta} observation(s), expected {exp}", exp, delta)
+                            tally.mark("nontrivial", ("two-layers", kind, seq))
+                except Exception as ex:
+                    if last:
+                        tally.violation(f"two-layers:exception:{kind}:{type(ex).__name__}", {"config": {"trainers": [kind], "two_layers": True}, "history": [list(o) for o in seq]}, repr(ex))
+                    legal = False
+                    break
+    tally.add("states", 1)
+    tally.sample({"part": "two layers on one trainer", "trainer": kind, "depth": depth, "events": [list(o) for o in ops]})
+    return tally
+
+
 def run(rep):
     quick = rep.tier == "quick"
     jobs = []
+    for k in ("stdp", "mstdpet", "kernel"):
+        jobs.append((two_layer_shard, (k, 4 if quick else 5)))
     depth1 = 5 if quick else 7
     depth2 = 3 if quick else 5
     cap = 2500 if quick else 20000
